@@ -138,6 +138,7 @@ def dwarfLookup (pres : Pres) (fdes : List Fde) (baseSvma rel : Nat) : Lookup :=
   let svma := baseSvma + rel
   let table := sortByStart fdes
   if pres ≠ .hdr ∧ !indexBuilds baseSvma fdes then .noData
+  else if U64 ≤ svma then .failed          -- `base_svma.checked_add(rel)` (a corrupt image base)
   else
     match lastLE svma table with
     | none => .failed
